@@ -230,7 +230,7 @@ class RunDomain(DefaultDomain):
         return [val(USERVALUE, ok), exc(USER_EXC, bad)]
 
     def _handler_call(self, v, call, st):
-        s = bump(st, "ev.outcomes").note(("handler:" + v[1], call.lineno))
+        s = bump(st, "ev.outcomes").note((f"handler:{v[1]}", call.lineno))
         if st.get("ev.started", 0) == 0 or st.get("ev.stopped", 0) > 0:
             s = s.set("ev.outcome_outside_bracket", 1)
         return [val(NONE, s), exc(("framework", "handler raised"), s)]
@@ -344,6 +344,9 @@ class KindRunDomain(RunDomain):
                 is_multi = x[1] == "multi"
                 return "T" if is_multi == isinstance(op, ast.Is) else "F"
             return "TF"
+        if isinstance(op, (ast.Is, ast.IsNot, ast.Eq, ast.NotEq)) and {left, right} == {("rectype", "base"), ("excclass",)}:
+            # no entry of the handler table is a non-Exception class (C03 R-HANDLER-TABLE)
+            return "F" if isinstance(op, (ast.Is, ast.Eq)) else "T"
         if isinstance(op, (ast.Is, ast.IsNot)) and right == ("global", "MultipleExceptions") and left == TOP:
             # a constituent of a MultipleExceptions: a nested MultipleExceptions records the same
             # sequences as its flattening (the constituent loop already runs 0..n times over any kinds)
@@ -466,6 +469,23 @@ class KindRunDomain(RunDomain):
             if cur in (EMPTY, TOP):
                 out.append(exc(("framework", "IndexError: pop from empty list"), st))
             return out
+        if d == "type" and len(call.args) == 1:
+            out = []
+            for r in interp.eval_list(list(call.args), st, fr):
+                x = r.value[0] if r.kind == "val" else None
+                if isinstance(x, tuple) and x and x[0] == "recorded":
+                    out.append(val(("rectype", x[1]), r.state))
+                else:
+                    out.append(r if r.kind == "exc" else val(TOP, r.state))
+            return out
+        if d == "issubclass" and len(call.args) == 2:
+            out = []
+            for r in interp.eval_list(list(call.args), st, fr):
+                if r.kind == "val" and r.value[0] == ("rectype", "base") and r.value[1] == ("excclass",):
+                    out.append(val(FALSE, r.state))
+                else:
+                    out.append(r if r.kind == "exc" else val(("bool",), r.state))
+            return out
         if d == "isinstance" and call.args:
             out = []
             for r in interp.eval_list(list(call.args), st, fr):
@@ -556,4 +576,166 @@ def force_verdicts(results):
         how = "set" if force == "T" else "never examined after the last user stage"
         label = f"force_failure {how}: outcome {'from a ' + outcome + ' exception of ' + stage if stage != '-' else outcome}"
         out.append((label, f"force_failure {force} -> {outcome} from {stage}", ok, r))
+    return out
+
+
+# ---------------------------------------------------------------------------------------------
+# dispatch semantics: which handler reports a recorded exception
+# ---------------------------------------------------------------------------------------------
+TABLE_LEN = 3
+
+
+class DispatchDomain(KindRunDomain):
+    """The handler table is a symbolic list [(C0, h0), (C1, h1), (C2, h2)]; the test method raises
+    one symbolic exception ``e`` whose relation to the table is fixed by the initial state:
+    env.m[i] = isinstance(e, Ci), env.x = the i with type(e) is Ci (or None).  Whatever shape the
+    dispatch code has (loop, helper method, two passes ...), the handlers it invokes are logged."""
+
+    def __init__(self, classes, receiver):
+        super().__init__(classes, receiver, kinds=("sym",))
+
+    def _user_call(self, v, call, st):
+        stage = v[1]
+        s = st.set("ev.cur_stage", stage).set("ev.user_ran", 1)
+        if stage != "test":
+            return [val(USERVALUE, s)]
+        return [exc(("user", "sym", stage), s.note(("test raises e", call.lineno)))]
+
+    def _read_force(self, st, lineno):
+        return [val(NONE, st)]
+
+    def load_attr(self, chain, st, fr):
+        if chain[0] == "<value>" and chain[-1] == "__class__":
+            return None
+        return super().load_attr(chain, st, fr)
+
+    # the table walk: entries are produced in list order
+    def _ikey(self, stmt, fr):
+        return f"{fr.prefix}<iter@{stmt.lineno}>"
+
+    def for_start(self, interp, stmt, itervalue, st, fr):
+        if itervalue == ("handlers",):
+            return st.set(self._ikey(stmt, fr), 0)
+        return st
+
+    def for_step(self, interp, stmt, itervalue, st, fr, first):
+        if itervalue == ("handlers",):
+            i = st.get(self._ikey(stmt, fr), 0)
+            return (True, False) if i < TABLE_LEN else (False, True)
+        return super().for_step(interp, stmt, itervalue, st, fr, first)
+
+    def element(self, itervalue, st, node):
+        if itervalue == ("handlers",):
+            i = [v for k, v in st.items if k.endswith(f"<iter@{node.lineno}>")]
+            i = i[0] if i else 0
+            return ("tuple", ("hclass", i), ("handler", i))
+        return super().element(itervalue, st, node)
+
+    def iter_step_effect(self, interp, stmt, itervalue, st, fr):
+        if itervalue == ("handlers",):
+            k = self._ikey(stmt, fr)
+            return st.set(k, st.get(k, 0) + 1)
+        return super().iter_step_effect(interp, stmt, itervalue, st, fr)
+
+    def for_done(self, interp, stmt, itervalue, st, fr):
+        if itervalue == ("handlers",):
+            return st.drop_prefix(self._ikey(stmt, fr))
+        return st
+
+    def _handler_call(self, v, call, st):
+        st = st.set("ev.invoked", st.get("ev.invoked", ()) + (v[1],))
+        rec = [a for a in getattr(self, "_argvals", ()) if isinstance(a, tuple) and a and a[0] == "recorded"]
+        if v[1] == "last_resort" or rec:
+            st = st.set("ev.invoked_with_e", st.get("ev.invoked_with_e", ()) + (bool(rec),))
+        return RunDomain._handler_call(self, v, call, st)
+
+    def compare(self, op, left, right):
+        if isinstance(op, (ast.Is, ast.IsNot, ast.Eq, ast.NotEq)):
+            pair = {left[0] if isinstance(left, tuple) and left else None, right[0] if isinstance(right, tuple) and right else None}
+            if pair == {"hclass", "symtype"}:
+                i = (left if left[0] == "hclass" else right)[1]
+                same = self._x == i
+                pos = isinstance(op, (ast.Is, ast.Eq))
+                return "T" if same == pos else "F"
+        return super().compare(op, left, right)
+
+    def call(self, interp, call, st, fr):
+        d = dotted(call.func)
+        if d in ("type", "isinstance", "issubclass") and call.args:
+            out = []
+            for r in interp.eval_list(list(call.args), st, fr):
+                if r.kind == "exc":
+                    out.append(r)
+                    continue
+                x = r.value[0]
+                is_e = isinstance(x, tuple) and x and x[0] == "recorded" and x[1] == "sym"
+                if d == "isinstance" and not is_e:
+                    return super().call(interp, call, st, fr)
+                if d == "type" and is_e and len(r.value) == 1:
+                    out.append(val(("symtype",), r.state))
+                elif d == "isinstance" and is_e and len(r.value) == 2:
+                    c = r.value[1]
+                    if isinstance(c, tuple) and c and c[0] == "hclass":
+                        out.append(val(TRUE if self._m[c[1]] else FALSE, r.state))
+                    elif norm(call.args[1]).split(".")[-1] in ("Exception", "BaseException"):
+                        out.append(val(TRUE, r.state))
+                    else:
+                        out.append(val(("bool",), r.state))
+                elif d == "issubclass" and x == ("symtype",) and len(r.value) == 2 and isinstance(r.value[1], tuple) and r.value[1][:1] == ("hclass",):
+                    out.append(val(TRUE if self._m[r.value[1][1]] else FALSE, r.state))
+                else:
+                    out.append(val(("bool",) if d != "type" else TOP, r.state))
+            return out
+        return super().call(interp, call, st, fr)
+
+
+def dispatch_semantics(ctx, receiver_cls):
+    """-> [(m, x, expected, [(invoked tuple, exit kind, Result)])] for every relation between the
+    symbolic exception and a three-entry handler table."""
+    import itertools
+    classes = ctx.classes
+    owner, f = classes.resolve_method(receiver_cls, "_run_prepared_result")
+    out = []
+    for m in itertools.product((False, True), repeat=TABLE_LEN):
+        for x in [None] + [i for i in range(TABLE_LEN) if m[i]]:
+            dom = DispatchDomain(classes, receiver_cls)
+            dom._m, dom._x = m, x
+            interp = Interp(dom, max_depth=10, max_states=20000)
+            res = interp.analyze(f, {"result": NOTNONE}, initial_state(), receiver=receiver_cls, name="_run_prepared_result")
+            ctx.stats["states"] += interp.steps
+            for fn in interp.functions:
+                ctx.analysed(fn)
+            first = next((i for i in range(TABLE_LEN) if m[i]), None)
+            exits = {}
+            for r in res:
+                framework = r.kind == "exc" and isinstance(r.value, tuple) and r.value and r.value[0] == "framework"
+                if framework:
+                    continue
+                kind = "return" if r.kind == "val" else ("reraise" if isinstance(r.value, tuple) and r.value[:1] == ("reraise",) else "raise")
+                if not r.state.get("ev.user_ran", 0):
+                    continue  # the skip-decorator path: nothing ran, nothing to dispatch
+                exits.setdefault((r.state.get("ev.invoked", ()), r.state.get("ev.invoked_with_e", ()), kind), r)
+            out.append((m, x, first, [(k[0], k[1], k[2], r) for k, r in sorted(exits.items(), key=repr)]))
+    return out
+
+
+def dispatch_verdicts(ctx, receiver_cls):
+    """-> [(label, construct suffix, ok, message, Result|None)]: for every relation between a recorded
+    exception and the handler table, exactly the first matching handler is invoked, once, with the
+    exception; with no match, last_resort is invoked and the exception re-raised."""
+    out = []
+    for m, x, first, exits in dispatch_semantics(ctx, receiver_cls):
+        rel = "".join("1" if b else "0" for b in m)
+        label = f"isinstance(e, C0..C2)={rel}" + (f", type(e) is C{x}" if x is not None else "")
+        want = ((first,), (True,), "return") if first is not None else (("last_resort",), (True,), "reraise")
+        got = [(a, b, c) for a, b, c, _ in exits]
+        ok = got == [want]
+        if first is not None:
+            msg = f"expected handler {first} (the first entry whose class matches) to report e and the run to return; the dispatch does: " + "; ".join(
+                f"invokes {list(a)} then {c}" + ("" if all(b) else " (not with e)") for a, b, c in got)
+        else:
+            msg = "no entry matches: expected last_resort(case, result, e) and e re-raised; the dispatch does: " + "; ".join(
+                f"invokes {list(a)} then {c}" for a, b, c in got)
+        bad = next((r for a, b, c, r in exits if (a, b, c) != want), None)
+        out.append((label + (f": handler {first} reports" if first is not None else ": last_resort, re-raise"), f"dispatch m={rel} exact={x}", ok, msg, bad))
     return out
